@@ -93,7 +93,7 @@ def generate(rng, tier):
                    "fam": rng.choice(["fits_sep", "fits_cel", "fits_rot"]), "steps": rng.randint(1, 3), "chain": []}
         else:
             yield {"mode": "chain", "shape": shape, "wseed": rng.randrange(10**6),
-                   "fam": rng.choice(["fits_sep", "fits_cel", "fits_rot", "fits_cd", "fits_crota"]),
+                   "fam": rng.choice(["fits_sep", "fits_cel", "fits_rot", "fits_cd", "fits_crota", "fits_pcsmall"]),
                    "chain": gen_chain(rng, shape, rng.choice([0, 1, 1, 2, 2, 3, 4]))}
 
 
@@ -111,6 +111,26 @@ def make_base(case):
         w2.wcs.crval = w.wcs.crval; w2.wcs.crpix = w.wcs.crpix
         w2.wcs.cd = cd
         w2.wcs.cname = list(w.wcs.cname)
+        w2.wcs.set(); w2.array_shape = shape
+        return w2
+    if fam == "fits_pcsmall":
+        # the scale carried by the PC matrix itself (CDELT = 1, as WCS.to_header() writes a CD-matrix WCS), with a
+        # wavelength axis in metres: diagonal ~2e-11, a genuine coupling to its neighbour ~3e-12 (far below 1e-8)
+        w0 = W.make_fits(rng, shape, "fits_sep", True)
+        from astropy.wcs import WCS
+        n = w0.wcs.naxis
+        w2 = WCS(naxis=n)
+        w2.wcs.ctype = list(w0.wcs.ctype); w2.wcs.cunit = [str(x) for x in w0.wcs.cunit]
+        w2.wcs.crval = w0.wcs.crval; w2.wcs.crpix = w0.wcs.crpix
+        w2.wcs.cname = list(w0.wcs.cname)
+        M = np.diag(np.asarray(w0.wcs.get_cdelt(), dtype=float))
+        if n >= 2:
+            i = [k for k, c in enumerate(w2.wcs.ctype) if c.startswith("WAVE")]
+            i = i[0] if i else 0
+            j = (i + 1) % n
+            M[i, j] = M[i, i] / 8            # dyadic fraction of the row's own scale
+        w2.wcs.pc = M
+        w2.wcs.cdelt = [1.0] * n
         w2.wcs.set(); w2.array_shape = shape
         return w2
     if fam == "fits_crota":
